@@ -74,18 +74,21 @@ def extractToken (c : Collector) (t : MetaToken) : Collector :=
 
 def extractTokens (c : Collector) (ts : List MetaToken) : Collector := ts.foldl extractToken c
 
+/-- the position `AppendMeta` gives to a meta: a nested meta (`Size == 0`) points to the previous position -/
+def posOf (c : Collector) (m : Meta) : DocPos :=
+  if m.size = 0 then c.positions.getLastD (0, 0) else (c.blockIndex, c.nextDocOffset)
+
+/-- `metaDataCollector.AppendMeta` up to (excluding) its final `extractTokens` call -/
+def appendMetaPre (c : Collector) (m : Meta) : Collector :=
+  { c with nextDocOffset := if m.size = 0 then c.nextDocOffset else c.nextDocOffset + m.size + 4,
+           minMID := if m.id.1 < c.minMID then m.id.1 else c.minMID,
+           maxMID := if m.id.1 > c.maxMID then m.id.1 else c.maxMID,
+           ids := c.ids ++ [m.id], tokensInDocs := c.tokensInDocs ++ [m.tokens.length],
+           positions := c.positions ++ [posOf c m],
+           docsCounter := c.docsCounter + 1, sizeCounter := c.sizeCounter + m.size }
+
 /-- `metaDataCollector.AppendMeta` -/
-def appendMeta (c : Collector) (m : Meta) : Collector :=
-  let pos : DocPos := if m.size = 0 then c.positions.getLastD (0, 0) else (c.blockIndex, c.nextDocOffset)
-  let next := if m.size = 0 then c.nextDocOffset else c.nextDocOffset + m.size + 4
-  extractTokens
-    { c with nextDocOffset := next,
-             minMID := if m.id.1 < c.minMID then m.id.1 else c.minMID,
-             maxMID := if m.id.1 > c.maxMID then m.id.1 else c.maxMID,
-             ids := c.ids ++ [m.id], tokensInDocs := c.tokensInDocs ++ [m.tokens.length],
-             positions := c.positions ++ [pos],
-             docsCounter := c.docsCounter + 1, sizeCounter := c.sizeCounter + m.size }
-    m.tokens
+def appendMeta (c : Collector) (m : Meta) : Collector := extractTokens (appendMetaPre c m) m.tokens
 
 /-- the parsing loop of `appendWorker`: `Init(blockIndex)` then `AppendMeta` for every meta of the bulk -/
 def collect (blockIndex : Nat) (ms : List Meta) : Collector := ms.foldl appendMeta (init blockIndex)
@@ -165,5 +168,15 @@ def rview (c : Collector) : List (ID × DocPos × List Bytes) :=
 /-- the slices are aligned: one position and one token count per id, and the counts add up to the index length -/
 def WF (c : Collector) : Prop :=
   c.positions.length = c.ids.length ∧ c.tokensInDocs.length = c.ids.length ∧ c.tokensInDocs.sum = c.tokensIndex.length
+
+/-- what a bulk means (specification side): per meta its id, the position of its document inside block `b`
+(`[4-byte length][doc]` framing; a nested meta shares the position of the meta before it) and its token bytes -/
+def docsFrom (b : Nat) : List Meta → Nat → DocPos → List (ID × DocPos × List Bytes)
+  | [], _, _ => []
+  | m :: ms, off, last =>
+    (m.id, (if m.size = 0 then last else (b, off)), m.tokens.map MetaToken.bytes) ::
+      docsFrom b ms (if m.size = 0 then off else off + m.size + 4) (if m.size = 0 then last else (b, off))
+
+def docsOf (b : Nat) (ms : List Meta) : List (ID × DocPos × List Bytes) := docsFrom b ms 0 (0, 0)
 
 end SV.Collector
